@@ -311,9 +311,9 @@ func AttrASPath(as4 bool, asns []uint32) []byte {
 	return Attr(0x40, 2, v)
 }
 
-func AttrNextHop(ip [4]byte) []byte   { return Attr(0x40, 3, ip[:]) }
-func AttrMED(v uint32) []byte         { return Attr(0x80, 4, be32(v)) }
-func AttrLocalPref(v uint32) []byte   { return Attr(0x40, 5, be32(v)) }
+func AttrNextHop(ip [4]byte) []byte { return Attr(0x40, 3, ip[:]) }
+func AttrMED(v uint32) []byte       { return Attr(0x80, 4, be32(v)) }
+func AttrLocalPref(v uint32) []byte { return Attr(0x40, 5, be32(v)) }
 func AttrCommunities(cs ...uint32) []byte {
 	var v []byte
 	for _, c := range cs {
